@@ -14,7 +14,7 @@ where
             BasicData::Char(value) => u32::from(value.clone()).to_le_bytes().to_vec(),
             BasicData::Symbol(value) => value.to_le_bytes().to_vec(),
             BasicData::ByteList(length) => {
-                let start = from + 1;
+                let start = self.data_block().start + from + 1;
                 let end = start + length;
                 self.data()[start..end]
                     .iter()
@@ -22,7 +22,7 @@ where
                     .collect::<Result<Vec<u8>, DataError>>()?
             }
             BasicData::CharList(length) => {
-                let start = from + 1;
+                let start = self.data_block().start + from + 1;
                 let end = start + length;
                 self.data()[start..end]
                     .iter()
@@ -31,7 +31,7 @@ where
                     .collect::<Vec<u8>>()
             }
             BasicData::SymbolList(length) => {
-                let start = from + 1;
+                let start = self.data_block().start + from + 1;
                 let end = start + length;
                 self.data()[start..end]
                     .iter()
